@@ -3,6 +3,10 @@
 import os
 import sys
 
+if os.environ.get("PYTHONHASHSEED") is None:
+    # make every run a pure function of the tree and the tier
+    os.environ["PYTHONHASHSEED"] = "0"
+    os.execv(sys.executable, [sys.executable] + sys.argv)
 sys.path.insert(0, os.path.dirname(os.path.abspath(__file__)))
 sys.dont_write_bytecode = True
 from mc import runner  # noqa: E402
